@@ -13,6 +13,7 @@ import nfc.clf
 import nfc.dep
 import nfc.llcp.pdu as pdu
 from symx.runner import exc_label
+from symx import envpatch
 from env import peer as envp
 from env import llcp as envl
 
@@ -500,6 +501,67 @@ def dep_target_session(sx, brty, atr, first, steps, send_len):
     return out
 
 
+class ChainPeer(object):
+    """the frontend under nfc.dep with a peer that never ends a chained
+    transfer: every frame it sends is a well-formed INF PDU with the More
+    Information bit and the packet number the protocol expects; it takes
+    `delay` seconds (virtual) to answer.  As the drivers do, exchange() with a
+    time-out of 0 only transmits and returns None.  More than `limit` frames
+    is TooManyCalls."""
+
+    def __init__(self, sx, brty, response, delay, limit):
+        self.sx, self.brty, self.response = sx, brty, response
+        self.delay, self.limit, self.n, self.pni = delay, limit, 0, 0
+        self.t0 = envpatch.CLOCK.t
+
+    def exchange(self, data, timeout):
+        if timeout is not None and timeout <= 0:
+            return None
+        self.n += 1
+        if self.n > self.limit:
+            raise envp.TooManyCalls("chain of %d frames" % self.n)
+        envpatch.CLOCK.sleep(self.delay)
+        if self.response:
+            # answer to our DEP_REQ (INF or ACK) with the same packet number
+            off = 3 if self.brty == "106A" else 2
+            pni = data[off + 1] & 3
+            body = [0xD5, 0x07, 0x10 | pni, self.sx.byte("c%d" % self.n)]
+        else:
+            self.pni = (self.pni + 1) & 3
+            body = [0xD4, 0x06, 0x10 | self.pni, self.sx.byte("c%d" % self.n)]
+        return framed(self.sx, self.brty, body)
+
+
+def dep_endless_chain(sx, role, brty, delay):
+    """exchange(data, timeout=1.0) against a peer that chains for ever: the
+    call must end (CommunicationError or data) within a few time-outs of
+    virtual time; `limit` frames span more than 5 s"""
+    timeout = 1.0
+    limit = int(5.0 / delay) + 2
+    clf = ChainPeer(sx, brty, role == "Initiator", delay, limit)
+    if role == "Initiator":
+        d = nfc.dep.Initiator(clf)
+        d.target = nfc.clf.RemoteTarget(brty)
+        d.miu, d.did, d.nad, d.rwt, d.pni = 61, None, None, 0.08, 0
+        entry = "dep.Initiator.exchange:endless-chain"
+        call = lambda: d.exchange(b"\x00\x00", timeout)
+    else:
+        d = nfc.dep.Target(clf)
+        d.target = nfc.clf.LocalTarget(brty)
+        d.miu, d.did, d.nad, d.rwt, d.pni, d.cmd = 61, None, None, 0.08, 0, None
+        entry = "dep.Target.exchange:endless-chain"
+        call = lambda: d.exchange(b"\x00\x00", timeout)
+    t0 = envpatch.CLOCK.t
+    try:
+        st, r = guarded(sx, entry, COMM, call)
+    except envp.TooManyCalls:
+        sx.check(False, "unbounded-chaining:%s" % entry)
+    elapsed = envpatch.CLOCK.t - t0
+    sx.check(elapsed <= 3 * timeout, "exchange-exceeds-timeout:%s" % entry)
+    sx.reach("dep:endless-chain-ended")
+    return [st, clf.n]
+
+
 def dep_target_tox(sx, brty, shape):
     """Target.send_timeout_extension(): the initiator's answer is arbitrary"""
     clf = envp.ScriptClf(sx)
@@ -972,42 +1034,63 @@ def coop_world(sx, rw):
 
 
 def link_step(sx, llc, name, sock_addr, peer):
-    """one iteration of the link thread's loop: the peer's PDU (SYMM: none) is
-    dispatched, then what is to be sent is collected (twice: aggregation may
-    need a second turn)"""
-    def make():
-        if name == "SYMM":
-            return None
-        if name == "DISC":
+    """one iteration of the link thread's loop: the peer's PDU (SYMM: none;
+    'A+B': both in one AGF PDU) is dispatched, then what is to be sent is
+    collected (twice: aggregation may need a second turn)"""
+    def make(n):
+        if n == "DISC":
             return pdu.Disconnect(sock_addr, peer)
-        if name == "DM":
+        if n == "DM":
             return pdu.DisconnectedMode(sock_addr, peer, sx.byte("dm.reason"))
-        if name == "FRMR":
+        if n == "FRMR":
             return pdu.FrameReject(sock_addr, peer, flags=1, ptype=12)
-        if name == "CC":
+        if n == "CC":
             return pdu.ConnectionComplete(sock_addr, peer, 128, 1)
-        if name.startswith("RR:"):
-            return pdu.ReceiveReady(sock_addr, peer, int(name[3:]))
-        raise ValueError(name)
+        if n.startswith("RR:"):
+            return pdu.ReceiveReady(sock_addr, peer, int(n[3:]))
+        if n.startswith("I:"):
+            return pdu.Information(sock_addr, peer, int(n[2:]), 0, b"hi")
+        raise ValueError(n)
 
     def step():
-        p = make()
-        if p is not None:
+        if name != "SYMM":
+            ps = [make(n) for n in name.split("+")]
+            p = ps[0] if len(ps) == 1 else pdu.AggregatedFrame(0, 0, ps)
             llc.dispatch(pdu.decode(pdu.encode(p)))
         llc.collect()
         llc.collect()
     return (name, step)
 
 
+# what the sleeping call does after the peer's PDUs ('back': it returns or
+# raises nfc.llcp.Error; 'asleep': nothing it waits for has happened)
+APP_CASES = {
+    # send() waiting for the remote receive window
+    "send": {"DISC": "back", "DM": "back", "FRMR": "back", "RR:1": "back",
+             "SYMM": "asleep", "CC": "asleep"},
+    # send() waiting until its I PDU has left the send queue
+    "sendq": {"DISC": "back", "DM": "back", "FRMR": "back", "I:5": "back", "SYMM": "back"},
+    "recv": {"DISC": "back", "DM": "back", "FRMR": "back", "I:0": "back",
+             "SYMM": "asleep", "CC": "asleep"},
+    "accept": {"SYMM": "asleep", "CC": "asleep", "DM": "asleep"},
+    "connect": {"DM": "back", "CC": "back", "SYMM": "asleep", "DISC": "asleep"},
+    # connect() and then recv() on the connection
+    "connect+recv": {"CC,I:0": "back", "CC+CC,I:0": "back", "CC+DM,I:0": "back",
+                     "CC,CC,DISC": "back", "CC,DM": "back"},
+}
+
+
 def app_blocked(sx, call, enders):
     """`call` sleeps because of state the peer controls; then the peer sends
-    `ender` and keeps the link up with SYMM.  The call must come back (value
-    or nfc.llcp.Error) when the ender ends the condition it waits for; with
-    the control enders ('SYMM': nothing happens) it must stay asleep."""
+    the PDUs of `ender` ('X,Y': in successive link iterations, 'X+Y': in one
+    AGF PDU) and keeps the link up with SYMM.  The call must come back (value
+    or nfc.llcp.Error) when the condition it waits for has ended, and stay
+    asleep otherwise (table APP_CASES)."""
     ender = choose(sx, "ender", enders)
     rw = sx.pick("rw", [1, 2]) if call == "send" else 1
     S, llc, lst, dlc, out = coop_world(sx, rw)
-    entry = "app.%s:after-%s" % (call, ender.split(":")[0])
+    entry = "app.%s:after-%s" % (call, ender)
+    sock, peer = APP_ADDR, APP_PEER
     if call == "send":
         for i in range(rw):     # the remote receive window is used up
             assert llc.send(dlc, b"m%d" % i, nfc.llcp.MSG_DONTWAIT) is True
@@ -1015,17 +1098,23 @@ def app_blocked(sx, call, enders):
             llc.collect()
         assert dlc.send_window_slots == 0
         fn = lambda: llc.send(dlc, b"next", 0)
-        sock, peer = APP_ADDR, APP_PEER
+    elif call == "sendq":
+        assert dlc.send_window_slots > 0 and len(dlc.send_queue) == 0
+        fn = lambda: llc.send(dlc, b"next", 0)
     elif call == "recv":
         fn = lambda: llc.recv(dlc)
-        sock, peer = APP_ADDR, APP_PEER
     elif call == "accept":
         fn = lambda: llc.accept(lst)
-        sock, peer = APP_ADDR, APP_PEER
-    else:
+    elif call == "connect":
         fn = lambda: llc.connect(out, 17)
         sock, peer = APP_ADDR + 1, 17
-    S.steps = [link_step(sx, llc, n, sock, peer) for n in (ender, "SYMM", "SYMM", "SYMM")]
+    else:
+        def fn():
+            llc.connect(out, 17)
+            return llc.recv(out)
+        sock, peer = APP_ADDR + 1, 17
+    S.steps = [link_step(sx, llc, n, sock, peer)
+               for n in ender.split(",") + ["SYMM", "SYMM", "SYMM"]]
     left = None
     try:
         st, r = guarded(sx, entry, (nfc.llcp.Error,), S.app_call, fn)
@@ -1040,7 +1129,7 @@ def app_blocked(sx, call, enders):
     except coop.Unrepresentable:
         sx.assume(False, "a link step that would wait for a lock of the application "
                   "thread is not a schedule of env.coop (link steps are atomic)")
-    ends_wait = not (ender == "SYMM" or (call == "accept"))
+    ends_wait = APP_CASES[call][ender] == "back"
     if left is not None:
         # the script is exhausted and nothing notified the condition the call
         # sleeps on: with a peer that keeps sending SYMM it sleeps for ever
@@ -1058,7 +1147,7 @@ def app_blocked(sx, call, enders):
 # (6) ContactlessFrontend.connect() around it, with a scripted driver
 # ----------------------------------------------------------------------------
 from env.recdevice import (RecDevice, Trace, PeerEnv, ReaderEnv, HarnessLimit,
-                           make_frontend)
+                           make_frontend, new_frontend)
 
 
 class FuzzPeer(PeerEnv):
@@ -1188,6 +1277,146 @@ def connect_llcp(sx, role, shape, where, n):
         sx.reach("connect:llcp-no-link")
         sx.check(r is None, "connect-result-not-none:" + entry)
     return [bool(seen), dev.ncalls > 0]
+
+
+# ---- the udp driver as NFC-DEP target: the peer's datagrams after ATR_REQ
+import nfc.clf.udp
+
+
+class HexToken(object):
+    """second token of a datagram "<brty> <hex>": stands for the hex text of
+    `octets` (nfc.clf.udp.unhexlify is replaced by `unhex` below, so that the
+    octets may be symbolic; the text form itself is C13's subject)"""
+
+    def __init__(self, octets):
+        self.octets = octets
+
+
+class Dgram(object):
+    def __init__(self, brty, octets):
+        self.brty, self.octets = brty, octets
+
+    def startswith(self, prefix):
+        return False                # not "RFOFF"
+
+    def split(self):
+        return [self.brty.encode("ascii"), HexToken(self.octets)]
+
+    def __len__(self):
+        return len(self.brty) + 1 + 2 * len(self.octets)
+
+
+def unhex(data):
+    import binascii
+    if isinstance(data, HexToken):
+        return data.octets
+    return binascii.unhexlify(data)
+
+
+class UdpSocketModule(object):
+    AF_INET, SOCK_DGRAM, NI_NUMERICHOST = 2, 2, 1
+    error = OSError
+
+    def __init__(self, net):
+        self.net = net
+
+    def gethostbyname(self, host):
+        return "127.0.0.1"
+
+    def getnameinfo(self, addr, flags):
+        return (addr[0], str(addr[1]))
+
+    def socket(self, *a):
+        return UdpSocket(self.net)
+
+
+class UdpSocket(object):
+    def __init__(self, net):
+        self.net = net
+
+    def getsockname(self):
+        return ("127.0.0.1", 54321)
+
+    def close(self):
+        pass
+
+    def bind(self, addr):
+        pass
+
+    def sendto(self, data, addr):
+        self.net['sent'] += 1
+        return len(data)
+
+    def recvfrom(self, n):
+        self.net['calls'] += 1
+        if self.net['calls'] > 200:
+            raise envp.TooManyCalls("udp recvfrom")
+        return self.net['dgrams'].pop(0), ("127.0.0.1", 40001)
+
+
+class UdpSelect(object):
+    """a datagram is there while the peer's script lasts, then silence"""
+
+    def __init__(self, net):
+        self.net = net
+
+    def select(self, r, w, x, timeout=None):
+        self.net['calls'] += 1
+        if self.net['calls'] > 200:
+            raise envp.TooManyCalls("udp select")
+        if self.net['dgrams']:
+            return (list(r), [], [])
+        nfc.clf.udp.time.sleep(timeout if timeout else 1.0)
+        return ([], [], [])
+
+
+UDP_ATR_REQ = [0xD4, 0x00] + [0x01, 0xFE, 0x11, 0x22, 0x33, 0x44, 0x55, 0x66, 0x53, 0x54] + \
+    [0x00, 0x00, 0x00, 0x32] + GB_OK[:6]
+
+
+def connect_udp_target(sx, brty, shapes):
+    """clf.connect(llcp={'role': 'target'}) on the real udp driver (socket and
+    select replaced by a scripted peer): well-formed ATR_REQ datagram, then
+    the datagrams of `shapes` ('raw:n' n symbolic octets; 'PSL:n' / 'DEP:n' /
+    'DSL:n': start byte, length byte, code bytes, n symbolic octets; 'symm':
+    DEP_REQ INF carrying an LLCP SYMM PDU), then silence"""
+    shapes = choose(sx, "shapes", shapes) if shapes and isinstance(shapes[0], list) else shapes
+    net = dict(sent=0, calls=0, dgrams=[])
+    atr = ([0xF0] if brty == "106A" else []) + [len(UDP_ATR_REQ) + 1] + UDP_ATR_REQ
+    net['dgrams'].append(Dgram(brty, sx.mkbytes(atr, True)))
+    cur = brty
+    for i, shape in enumerate(shapes):
+        kind, n = shape.split(":")
+        if kind == "raw":
+            octets = sx.bytes("u%d" % i, int(n), mutable=True)
+        else:
+            body = [0xD4, 0x06, (i - 1) & 3, 0x00, 0x00] if kind == "symm" else \
+                [0xD4, CODES[kind]] + list(sx.bytes("u%d" % i, int(n)))
+            octets = sx.mkbytes(([0xF0] if cur == "106A" else []) + [len(body) + 1] + body, True)
+        net['dgrams'].append(Dgram(cur, octets))
+    udp = nfc.clf.udp
+    saved = udp.socket, udp.select, udp.unhexlify
+    udp.socket, udp.select, udp.unhexlify = UdpSocketModule(net), UdpSelect(net), unhex
+    seen = []
+
+    def on_connect(llc):
+        seen.append(llc)
+        return True
+    entry = "clf.connect:llcp-target-udp"
+    try:
+        dev = udp.Device("localhost", 54321)
+        clf = new_frontend()
+        clf.device = dev            # what ContactlessFrontend.open() does
+        try:
+            st, r = guarded(sx, entry, (), clf.connect, terminate=poller(6), llcp={
+                'role': 'target', 'sec': False, 'on-connect': on_connect})
+        except envp.TooManyCalls:
+            sx.check(False, "endless-loop:" + entry)
+    finally:
+        udp.socket, udp.select, udp.unhexlify = saved
+    sx.reach("connect:udp-target-" + ("link-ran" if seen else "no-link"))
+    sx.check(r is (True if seen else None), "connect-result-wrong:" + entry)
+    return [bool(seen), net['sent']]
 
 
 class FuzzReader(ReaderEnv):
@@ -1353,6 +1582,10 @@ def partitions(tier):
                 steps = [[q], REQ2, ["timeout", "DEP:1"]]
             add("dep-tx:%s:%s" % (brty, q), "dep_target_session", brty=brty,
                 atr="fixed:0", first="symm:0", steps=steps, send_len=5)
+    for role in ("Initiator", "Target"):
+        for brty, delay in (("106A", 0.05), ("424F", 0.01)):
+            add("dep-chain:%s:%s" % (role, brty), "dep_endless_chain", role=role, brty=brty,
+                delay=delay)
     # (3) llc activation
     shapes = ["none", "raw:0", "raw:3", "raw:5", "raw:6", "raw:7"] + \
         ["ffm:%d" % n for n in range(0, (5 if quick else 8) + 1)] + \
@@ -1424,11 +1657,8 @@ def partitions(tier):
                 add("ho-cli:%s:%d:%s" % (op, i, end), "handover_client", op=op, lens=group,
                     end=end)
     # (7) application calls parked by the peer
-    for call, enders in (("send", ["DISC", "DM", "FRMR", "RR:1", "SYMM"]),
-                         ("recv", ["DISC", "DM", "FRMR", "SYMM"]),
-                         ("accept", ["SYMM"]),
-                         ("connect", ["DM", "CC", "SYMM"])):
-        add("app-blocked:%s" % call, "app_blocked", call=call, enders=enders)
+    for call in sorted(APP_CASES):
+        add("app-blocked:%s" % call, "app_blocked", call=call, enders=sorted(APP_CASES[call]))
     # (6) connect()
     for role in ("initiator", "target"):
         for shape in ("none", "raw:6", "ffm:0", "ffm:3", "ffm:4", "tlv:1", "tlv:2", "tlv:3",
@@ -1440,6 +1670,12 @@ def partitions(tier):
                 shape="ok", where=where, n=[2, 3] if quick else [2, 3, 4, 5])
     for atr in ("any:0", "any:2", "hdr:0", "hdr:14", "valid:0", "valid:3", "fixed:0"):
         add("connect-acm:" + atr, "connect_llcp_acm", atr=atr)
+    US = [[], ["raw:0"], ["raw:1"], ["raw:2"], ["raw:3"], ["PSL:0"], ["PSL:1"], ["PSL:2"],
+          ["PSL:3"], ["PSL:3", "raw:2"], ["PSL:3", "symm:0"], ["DEP:1"], ["symm:0"], ["DSL:0"],
+          ["DSL:1"], ["symm:0", "symm:0"]]
+    for brty in ("106A", "212F"):
+        for i, group in enumerate(chunks(US, 4)):
+            add("connect-udp:%s:%d" % (brty, i), "connect_udp_target", brty=brty, shapes=group)
     CC = [[1], [5], [9], [5, 0], [5, 1], [5, 6], [9, 10], [5, 2, 6]] + \
         ([] if quick else [[11], [5, 11], [5, 3]])
     for i, group in enumerate(chunks(CC, 3)):
@@ -1475,7 +1711,7 @@ MUST_REACH = ["pdu:decode-error", "pdu:decoded", "pdu:nested-agf-done",
               "dep:pdu-protocol-error", "dep:pdu-decoded", "dep:pdu-not-mine",
               "dep:frame-error", "dep:frame-decoded",
               "dep:initiator-exchanged", "dep:initiator-exchange-error",
-              "dep:initiator-not-activated", "dep:target-tox-ok", "dep:target-tox-exc",
+              "dep:initiator-not-activated", "dep:target-tox-ok", "dep:target-tox-exc", "dep:endless-chain-ended",
               "dep:initiator-activated", "dep:target-not-activated",
               "dep:target-activated", "dep:target-first-request", "dep:target-exchanged",
               "llc:not-activated", "llc:activated", "llc:ran-with-peer-parameters",
@@ -1483,6 +1719,7 @@ MUST_REACH = ["pdu:decode-error", "pdu:decoded", "pdu:nested-agf-done",
               "snep:server-returned", "snep:client-returned", "snep:client-error",
               "handover:server-returned", "connect:llcp-link-ran", "connect:llcp-no-link",
               "connect:llcp-acm-link-ran", "connect:llcp-acm-no-link",
+              "connect:udp-target-link-ran", "connect:udp-target-no-link",
               "connect:card-returned",
               "handover:client-returned", "app:came-back", "app:still-asleep-as-expected",
               "tt3:ignored", "tt3:answered", "tt3:dialog-ended",
@@ -1525,7 +1762,14 @@ BOUNDS = {
     "Application calls asleep because of peer-controlled state (send() on an exhausted "
     "remote receive window RW 1/2, recv(), accept(), connect()) while the peer sends DISC / "
     "DM (any reason) / FRMR / RR / CC / only SYMM: the call must be notified on the condition "
-    "it sleeps on and come back, or (controls) stay asleep. connect(llcp=) in both roles with 11 "
+    "it sleeps on and come back, or (controls) stay asleep; also send() waiting for its "
+    "I PDU to leave the send queue (DISC / DM / FRMR / out-of-sequence I / SYMM) and "
+    "connect() followed by recv() with one or two answers to CONNECT (CC, CC+CC and CC+DM "
+    "in one AGF, CC then CC, CC then DM). NFC-DEP exchange() of both roles against a peer "
+    "that chains More Information PDUs for ever (5 s of virtual time, time-out 1 s). "
+    "connect(llcp target) on the real udp driver: ATR_REQ datagram, then 16 sequences of "
+    "datagrams (raw 0..3 symbolic octets, PSL_REQ with 0..3 symbolic octets, DEP_REQ, "
+    "DSL_REQ, SYMM), then silence. connect(llcp=) in both roles with 11 "
     "general byte shapes and a first LLC frame of 2..3 symbolic octets per SAP; connect as "
     "initiator with an ATR_RES from sense_dep (7 shapes); connect(card=) with 8 command "
     "sequences",
@@ -1555,6 +1799,11 @@ OUTSIDE = [
     "peer behaviour over many frames (more than 3 arbitrary frames per conversation)",
 ]
 ASSUMPTIONS = [
+    "udp driver: socket / select of nfc.clf.udp replaced by a scripted peer; a datagram is "
+    "an object whose second token stands for the hex text of the octets and "
+    "nfc.clf.udp.unhexlify maps it back (datagram text syntax itself: C13)",
+    "ChainPeer: the endless chain arrives with 10 / 50 ms per frame; exchange() with "
+    "time-out 0 transmits only (as the drivers do)",
     "env.coop (cooperative locks / conditions, used read-only) for the family of sleeping "
     "application calls: one application call, link steps (dispatch of the peer's PDU + two "
     "collect() turns) run where the call sleeps in wait() without time-out, never earlier "
